@@ -33,7 +33,8 @@ ASSUMPTIONS = [
     "key bits are clear wherever mask bits are clear",
     "sources contain links and/or None",
 ]
-FLOORS = {"equivalence_keys": 20000, "shorter_result": 100,
+FLOORS = {"feedback_table_with_produced_entry": 100,
+          "equivalence_keys": 20000, "shorter_result": 100,
           "failure_report": 30, "default_routed_key": 50,
           "merged_entry_match": 200}
 SHARDS = {"quick": 16, "thorough": 64}
@@ -47,12 +48,14 @@ ANCHORS = [
      {"downcheck_rerun": ("merge = _refine_downcheck(merge, aliases, "
                           "min_goodness)", 1)}),
 ]
-CLASSES = ["orth", "ordered", "arbitrary_rde", "tiny", "multi", "big"]
+CLASSES = ["orth", "ordered", "arbitrary_rde", "tiny", "multi", "feedback",
+           "big"]
 
 
 def plan(tier):
     n = 1200 if tier == "quick" else 25000
     p = [(c, n) for c in CLASSES[:5]]
+    p.append(("feedback", n // 2))
     p.append(("big", 40 if tier == "quick" else 1500))
     return p
 
@@ -150,6 +153,17 @@ def gen(cls, idx, rng, tier):
         if t["mode"] == "orth":
             fns.append("rde_noalias")
     t["calls"] = [(f, targets(rng, n)) for f in fns]
+    if cls == "feedback":
+        # a second table over the same keys whose entries include key/mask
+        # pairs that minimising the first one *produced* (tables of chips
+        # along one route look like this), minimised afterwards in the same
+        # process and together with the first by the multi-chip front end
+        t["feedback"] = dict(seed=rng.randrange(1 << 30),
+                             keep=rng.choice([0.0, 0.3, 0.7]),
+                             target=targets(rng, max(1, n // 2)),
+                             methods=rng.choice([None, None, ["oc"],
+                                                 ["rde", "oc"]]))
+        t["calls"] = [("oc", None)]
     if cls == "multi":
         others = [gen_table(rng, rng.choice(["orth", "ordered", "tiny"]), tier)
                   for _ in range(rng.randint(1, 3))]
@@ -381,7 +395,63 @@ def run(case, ctx):
                 ctx.hit("shorter_result")
                 nt = nt or m >= 2
         obs.append(what)
+    if case.get("feedback"):
+        nt = run_feedback(ctx, mods, case, old, RTE, Routes, MFE) or nt
     if nt:
         ctx.mark_nontrivial()
     ctx.note(obs)
     return "ok"
+
+
+def run_feedback(ctx, mods, case, old, RTE, Routes, MFE):
+    import random
+    fb = case["feedback"]
+    rng = random.Random(fb["seed"])
+    out = list(mods[0].minimise(list(old), None))
+    produced = {(e.key, e.mask) for e in out} - {(e.key, e.mask)
+                                                 for e in old}
+    kms = set(produced) | {(e.key, e.mask) for e in old
+                           if rng.random() < fb["keep"]}
+    if not kms:
+        return False
+    pool = [sorted(rng.sample(range(24), rng.randint(1, 3)))
+            for _ in range(3)] + [[rng.randrange(6)]]
+    entries = []
+    for key, mask in sorted(kms):
+        r = rng.choice(pool)
+        entries.append((r, key, mask, gen_sources(rng, r)))
+    entries.sort(key=lambda e: bin(~e[1] & ~e[2] & 0xffffffff).count("1"))
+    second = dict(pos=case["pos"], fixed_key=case["fixed_key"],
+                  entries=entries, mode="ordered")
+    tb = build(second, RTE, Routes)
+    ctx.hit("feedback_table")
+    if produced:
+        ctx.hit("feedback_table_with_produced_entry")
+    nt = False
+    for fn, target in (("oc", None), ("mt", fb["target"]), ("rde", None),
+                       ("oc", fb["target"])):
+        what = "%s(target=%r) on a %d-entry table built from the key/masks " \
+               "an earlier minimisation produced" % (fn, target, len(tb))
+        nt = judge_call(ctx, mods, second, fn, tb, target, Routes, MFE,
+                        what) or nt
+    # both through the multi-chip front end, first table first
+    tables = {(0, 0): list(old), (1, 0): list(tb)}
+    descr = {(0, 0): case, (1, 0): second}
+    mnames = fb["methods"]
+    mkw = {} if not mnames else dict(methods=tuple(
+        {"rde": mods[1].minimise, "oc": mods[0].minimise}[n_]
+        for n_ in mnames))
+    what = "minimise_tables(None, methods=%r) on two chips sharing keys" % (
+        mnames,)
+    try:
+        res = mods[2].minimise_tables({c: list(t) for c, t in tables.items()},
+                                      None, **mkw)
+    except Exception as e:
+        raise Violation("unexpected-exception", "%s: %s: %s" %
+                        (what, type(e).__name__, e))
+    for chip, t0 in tables.items():
+        new = list(res.get(chip, []))
+        check(len(new) <= len(t0), "result-longer", what)
+        equivalent(ctx, descr[chip], t0, new, Routes,
+                   what + " chip %r" % (chip,))
+    return nt
